@@ -5,6 +5,11 @@ HERE = os.path.dirname(os.path.dirname(os.path.abspath(__file__)))
 
 TECH = "deterministic simulation with fault injection"
 CLAIMED = {
+ "C06": dict(
+   level="exploration", design="5/C06",
+   text="Seeded search over sets of 1-6 task programs (reschedule, float/Sleep/absolute sleeps, block and wake, Select/Recv/Send on simulated sockets with readiness, EOF, reset and back-pressure events at chosen virtual times, cooperative locks, Again/task_function calls nested to depth 3 returning, ending or raising, raising steps, Timers one-shot/recurring/cancelled/self-stopping, priorities below 1, per-cycle CPU cost, clock jumps) run by the real Scheduler/SelectHub under the virtual clock; a shim around BaseTask.execute observes every slice; oracle: program order, exactly-once, no overlap, never-early and exactly-one resumption per wait, values delivered, timer semantics, isolation of a raising task, sub-task result/exception reaches exactly its caller, bounded liveness in cycles and virtual time.",
+   note="Inline select hub only (the threaded hub's hand-off is explored by C07); sockets exclusive per task; schedule() of a task sleeping in the hub and release by a non-holder are treated as API misuse and not generated.",
+   technique=TECH + ": task-program x readiness/timer schedule search against a per-task step model under a virtual clock"),
  "C15": dict(
    level="fault_enumeration", design="5/C15",
    text="Fault enumeration over a corpus of 113 valid frames covering every parser reachable from ethernet: every truncation length and every offset x {0x00, 0xff, bit flips, seeded values} (quick; all 255 other values in thorough), checksum-repairing variants for ICMPv6/IGMP, plus seeded multi-byte mutation, length-field extremes, splices and random bytes. Each damaged frame goes through PacketIn.parsed / ethernet(raw=...), the layer chain walk, str(), dump() and pack(); every raise is a finding identified by (operation, exception type, file, function). The enumerated part is partitioned exactly over the runs and reported exhaustive only when every chunk ran.",
